@@ -117,20 +117,6 @@ theorem raw_no_unknown (tail : List Char) (ts : List Token) (h : CanonRawT tail 
     · exact rawOf_not_unknown t h.2.2.1 x hx
     · exact ih h.2.2.2.2 x hx
 
-theorem popBlank_no_unknown (l : List Token) (h : ∀ x ∈ l, ∀ s, x ≠ .unknown s) :
-    ∀ x ∈ popBlank l, ∀ s, x ≠ .unknown s := by
-  unfold popBlank
-  split
-  · intro x hx; exact h x (List.dropLast_subset l hx)
-  · exact h
-
-theorem trimLast_no_unknown (l : List Token) (h : ∀ x ∈ l, ∀ s, x ≠ .unknown s) : trimLast l = l := by
-  unfold trimLast
-  split
-  · rename_i s hl
-    exact absurd rfl (h _ (List.mem_of_getLast? hl) s)
-  · rfl
-
 theorem trimEndStr_white (w : List Char) (hw : ∀ c ∈ w, isOddWhite c = true) : trimEndStr w = [] := by
   have : ∀ c ∈ w.reverse, isUniWhite c = true := by
     intro c hc
@@ -143,16 +129,10 @@ theorem trimEndStr_white (w : List Char) (hw : ∀ c ∈ w, isOddWhite c = true)
     | cons a l ih => simp [List.dropWhile_cons, hl a (by simp), ih (fun x hx => hl x (by simp [hx]))]
   simp [trimEndStr, hd _ this]
 
-/-- `trim_end` removes a final white-space-only token without a trace, when no other `Unknown`
-    token is uncovered by doing so -/
-theorem trimEnd_trailing_white (l : List Token) (w : List Char) (hw : ∀ c ∈ w, isOddWhite c = true)
-    (h : ∀ x ∈ l, ∀ s, x ≠ .unknown s) : trimEnd (l ++ [.unknown w]) = trimEnd l := by
-  rw [trimEnd_eq, trimEnd_eq, trimLast_no_unknown _ (popBlank_no_unknown l h)]
-  have hp : popBlank (l ++ [.unknown w]) = l ++ [.unknown w] := by
-    unfold popBlank; simp
-  rw [hp]
-  unfold trimLast
-  simp [trimEndStr_white w hw]
+/-- `trim_end` removes a final white-space-only token without a trace -/
+theorem trimEnd_trailing_white (l : List Token) (w : List Char) (hw : ∀ c ∈ w, isOddWhite c = true) :
+    trimEnd (l ++ [.unknown w]) = trimEnd l := by
+  simp [trimEnd, trimEndRev, trimEndStr_white w hw]
 
 /-- a listed line followed by a carriage return (or any run of non-blank white space) lexes to
     the same line as without it -/
@@ -166,7 +146,7 @@ theorem lex_trailing_white (ts : List Token) (w : List Char) (hw : ∀ c ∈ w, 
   simp only [List.append_nil, lexFrom_nil] at r2
   rw [e] at r1 r2 ⊢
   rw [List.cons_append, lex_plain c _ hd hws, lex_plain c cs hd hws, ← List.cons_append, r1, r2]
-  simp only [postPasses, trimEnd_trailing_white _ w hw (raw_no_unknown w ts h)]
+  simp only [postPasses, trimEnd_trailing_white _ w hw]
 
 end Lex
 end Basic
